@@ -212,10 +212,17 @@ class C11(object):
             n1 = sf.sparse_connected_pixels(low)
             viol = check(low, t_lo, n1, "frame cut at %g, labelled with its default threshold" % t_lo)
             hi = low.threshold(t_hi) if (np.asarray(low.pixels["intensity"]) > t_hi).any() else None   # empty frames are refused
+            first_labels = np.array(low.pixels["connectedpixels"], copy=True)
             if viol is None and hi is not None and hi.nnz:
                 hi.meta["intensity"]["threshold"] = t_hi
                 n2 = sf.sparse_connected_pixels(hi)
                 viol = check(hi, t_hi, n2, "sub-frame above %g derived from it" % t_hi)
+                if viol is None and not np.array_equal(np.asarray(low.pixels["connectedpixels"]), first_labels):
+                    viol = {"class": "partition-differs", "key": "sparse_connected_pixels:partition-differs",
+                            "detail": "labelling another frame changed the labels the first frame already held"}
+                if viol is None and low.meta["connectedpixels"].get("nlabel") != n1:
+                    viol = {"class": "count-differs", "key": "sparse_connected_pixels:count-differs",
+                            "detail": "labelling another frame changed the label count the first frame advertises"}
             if viol is None:
                 n3 = sf.sparse_connected_pixels(low)
                 viol = check(low, t_lo, n3, "the first frame labelled again after a sub-frame was derived and labelled")
